@@ -37,6 +37,9 @@ REF_ATTRS = {"coordinates", "bounds", "climatology", "cell_measures", "ancillary
              "part_node_count", "interior_ring", "geometry_type", "dimensions", "cf_role",
              "computed_standard_name"}
 FILL_ATTRS = ("_FillValue", "missing_value")
+STRING_REFS = ("coordinates", "bounds", "climatology", "cell_measures", "ancillary_variables", "grid_mapping",
+               "formula_terms", "compress", "sample_dimension", "instance_dimension", "geometry",
+               "node_coordinates", "node_count", "part_node_count", "interior_ring")
 ITEMSIZE = {"f8": 8, "f4": 4, "i8": 8, "i4": 4, "i2": 2, "i1": 1, "u1": 1, "u2": 2,
             "u4": 4, "u8": 8, "b1": 1, "S1": 1}
 BYTE_UNITS = {"B": 1, "KIB": 1024, "MIB": 1024 ** 2, "KB": 1000, "MB": 10 ** 6}
@@ -60,6 +63,13 @@ def corpus_files():
                     {"src": ["synth", {"shape": [4], "dtype": "f8", "dims": [{"coord": True, "ncdim": "a b"}]}]}],
          "opts": dict(o), "fam": "corpus-F08f"},
         {"fields": [{"src": ["example", 3]}], "opts": dict(o, fmt="NETCDF4_CLASSIC"), "fam": "corpus-F08g"},
+        # second pass
+        {"fields": [{"src": ["example", 6], "geom_edit": {"drop_repr": ["longitude"]}}], "opts": dict(o),
+         "fam": "corpus-F08h"},
+        {"fields": [{"src": ["example", 6], "geom_edit": {"drop_gm": True}}], "opts": dict(o), "fam": "corpus-F08i"},
+        {"fields": [{"src": ["cm", {"p": "a", "name": "areacella", "external": False, "shape": [2, 3]}]},
+                    {"src": ["cm", {"p": "b", "name": "areacella", "external": True, "shape": [2, 3], "off": 1}]}],
+         "opts": dict(o), "fam": "corpus-F08j"},
         {"fields": [{"src": ["example", 0]}],
          "opts": dict(o, Conventions=["CF-1.8", "CF-1.9", "UGRID-1.0"]), "fam": "corpus-F08b"},
         {"fields": [{"src": ["example", 0]}],
@@ -122,7 +132,14 @@ def g_op(op):
         return f"(OName {gstr(op[1])})"
     if op[0] == "dim":
         return f"(ODim {gstr(op[1])} {gz(op[2])})"
-    return f"(ORole {gstr(op[1])} {gz(op[2])} {gstr(op[3])})"
+    return f"(ORole {gstr(op[1])} {gz(op[2])} {gstr(op[3])} {gbool(len(op) > 4 and op[4])})"
+
+
+def split_hist(h):
+    """(dry run?, requests) of a name history: a leading ["dry"] marks the dry run of append mode"""
+    if h and h[0] == ["dry"]:
+        return True, h[1:]
+    return False, h
 
 
 def parse_bytes(x):
@@ -183,7 +200,10 @@ def gen_name_history(rng, malformed=False):
             role = rng.choice(ROLES[:2] if rng.random() < 0.7 else ROLES)
             if malformed and rng.random() < 0.3:
                 role = ""
-            ops.append(["role", b, rng.choice([2, 2, 4, 7]), role])
+            # named: the name was set on the construct; only a dimension of that name is re-used
+            ops.append(["role", b, rng.choice([2, 2, 4, 7]), role, rng.random() < 0.35])
+    if rng.random() < 0.08:
+        ops = [["dry"]] + ops
     return ops
 
 
@@ -234,6 +254,150 @@ def gen_shared_bounds_case(rng):
     o = default_opts()
     o["coordinates"] = rng.random() < 0.3
     return {"fields": fields, "opts": o, "fam": "shared-bounds"}
+
+
+def nested_from_partition(counts, start=1.0, step=1.0):
+    """cells x parts x nodes nested lists (None = missing) holding start, start+step, ... divided as [counts]"""
+    nparts = max(len(r) for r in counts)
+    nnodes = max(max(r) for r in counts)
+    v = start
+    out = []
+    for r in counts:
+        cell = []
+        for k in range(nparts):
+            c = r[k] if k < len(r) else 0
+            part = []
+            for j in range(nnodes):
+                if j < c:
+                    part.append(v)
+                    v += step
+                else:
+                    part.append(None)
+            cell.append(part)
+        out.append(cell)
+    return out
+
+
+def gen_partition(rng, gtype, ncells):
+    lo = 3 if gtype == "polygon" else (1 if gtype == "point" else 2)
+    counts = []
+    for _ in range(ncells):
+        np_ = 1 if gtype == "point" else rng.choice([1, 1, 2, 3])
+        counts.append([rng.choice([lo, lo + 1, lo + 2]) if gtype != "point" else rng.choice([1, 1, 2])
+                       for _ in range(np_)])
+    return counts
+
+
+def geom_spec(rng, p, gtype=None, counts=None):
+    gtype = gtype or rng.choice(["polygon", "polygon", "line", "point"])
+    ncells = len(counts) if counts else rng.choice([1, 2, 2, 3])
+    counts = counts or gen_partition(rng, gtype, ncells)
+    ncoord = rng.choice([2, 2, 3])
+    bounds = [nested_from_partition(counts, start=1.0 + 50 * k) for k in range(ncoord)]
+    ring = None
+    if gtype == "polygon" and rng.random() < 0.5:
+        nparts = max(len(r) for r in counts)
+        ring = [[(rng.choice([0, 1]) if k < len(r) and k > 0 else (0 if k < len(r) else None))
+                 for k in range(nparts)] for r in counts]
+    return {"p": p, "gtype": gtype, "bounds": bounds, "counts": counts,
+            "repr": [rng.random() < 0.5 for _ in range(ncoord)],
+            "props": [rng.random() < 0.85 for _ in range(ncoord)],
+            "ring": ring, "gm": rng.random() < 0.5, "time": rng.random() < 0.4,
+            "extra_aux": rng.random() < 0.4, "offset": rng.choice([0, 0, 1]),
+            "geomvar": rng.choice([None, None, "geo " + p, "pr" + p])}
+
+
+def gen_reference_case(rng, kind):
+    """Directed families for the reference attributes (second pass): geometry cells with and
+    without representative coordinate values / grid mapping / interior rings; data compressed by
+    gathering and as ragged arrays, several per file; internal and external cell measures that
+    want the same name; parametric vertical coordinates with bounds."""
+    o = default_opts()
+    o["coordinates"] = rng.random() < 0.2
+    if rng.random() < 0.15:
+        # (the count / index / list variables that cfdm makes are 64-bit integers, which the
+        # classic data model cannot hold)
+        o["fmt"] = rng.choice(["NETCDF4_CLASSIC", "NETCDF3_64BIT_DATA"]) if kind != "compressed" else "NETCDF3_64BIT_DATA"
+    fields = []
+    if kind == "geometry":
+        r = rng.random()
+        if r < 0.3:
+            ed = {"drop_repr": rng.sample(["latitude", "longitude"], rng.choice([0, 1, 2])),
+                  "drop_gm": rng.random() < 0.5}
+            fields.append({"src": ["example", 6], "geom_edit": ed})
+            if rng.random() < 0.4:
+                ed2 = {"drop_repr": rng.sample(["latitude", "longitude"], rng.choice([0, 1, 2])),
+                       "drop_gm": rng.random() < 0.5, "shift": rng.choice([0, 1.0])}
+                fields.append({"src": ["example", 6], "geom_edit": ed2})
+        else:
+            a = geom_spec(rng, rng.choice(["A", "B"]))
+            fields.append({"src": ["geom", a]})
+            r2 = rng.random()
+            if r2 < 0.35:
+                # the same nodes divided differently (same names, same instance dimension)
+                c2 = [list(reversed(row)) for row in a["counts"]]
+                if c2 == a["counts"]:
+                    c2 = [row[:-1] + [row[-1] - 1, 1] if row[-1] > (3 if a["gtype"] == "polygon" else 1) else row
+                          for row in a["counts"]] if a["gtype"] != "polygon" else list(reversed(a["counts"]))
+                tot = sum(sum(r_) for r_ in a["counts"])
+                if sum(sum(r_) for r_ in c2) == tot and a["gtype"] != "point":
+                    b = json.loads(json.dumps(a))
+                    b["counts"] = c2
+                    b["bounds"] = [nested_from_partition(c2, start=1.0 + 50 * k) for k in range(len(a["bounds"]))]
+                    if b["ring"] is not None:
+                        nparts = max(len(r_) for r_ in c2)
+                        b["ring"] = [[(0 if k < len(r_) else None) for k in range(nparts)] for r_ in c2]
+                    fields.append({"src": ["geom", b]})
+            elif r2 < 0.7:
+                fields.append({"src": ["geom", geom_spec(rng, rng.choice(["A", "B"]))]})
+    elif kind == "compressed":
+        if rng.random() < 0.45:
+            # twins: equal list / count / index values, but the variables cannot be shared because
+            # they compress other dimensions / span or index another instance dimension
+            k = rng.choice(["gath", "cont", "idx"])
+            if k == "gath":
+                twins = [{"p": "a", "kind": "gath", "t": 0, "sizes": [3, 2, 2], "pos": 1, "n": 2, "names": False},
+                         {"p": "b", "kind": "gath", "t": 3, "sizes": [3, 4], "pos": 1, "n": 1, "names": False}]
+            else:
+                t = rng.choice([0, 1, 2, 3, 4])
+                sh = rng.random() < 0.3
+                twins = [{"p": "a", "kind": k, "t": t, "names": False, "shuffle": sh, "coff": 0},
+                         {"p": "b", "kind": k, "t": t, "names": False, "shuffle": sh, "coff": 1}]
+            if rng.random() < 0.5:
+                twins.reverse()
+            fields = [{"src": ["cmp", x]} for x in twins]
+        for j in range(rng.choice([1, 2, 2, 3]) if not fields else rng.choice([0, 0, 1])):
+            r = rng.random()
+            pfx = rng.choice(["a", "b"])
+            if r < 0.35:
+                sizes, pos, n = rng.choice([([3, 2, 2], 1, 2), ([3, 4], 1, 1), ([2, 2, 3], 0, 2), ([4], 0, 1),
+                                            ([3, 2, 2], 1, 1)])
+                fields.append({"src": ["cmp", {"p": pfx, "kind": "gath", "t": rng.choice([0, 0, 1, 2, 3]),
+                                               "sizes": sizes, "pos": pos, "n": n, "names": rng.random() < 0.4,
+                                               "coff": rng.choice([0, 0, 1])}]})
+            elif r < 0.8:
+                fields.append({"src": ["cmp", {"p": pfx, "kind": rng.choice(["cont", "idx"]),
+                                               "t": rng.choice([0, 0, 1, 2, 3, 4]), "names": rng.random() < 0.4,
+                                               "shuffle": rng.random() < 0.3, "coff": rng.choice([0, 0, 1])}]})
+            else:
+                fields.append({"src": rng.choice([["dsg", 3, "contiguous"], ["dsg", 3, "indexed"],
+                                                  ["dsg", 4, "indexed_contiguous"]])})
+    elif kind == "external":
+        shape = rng.choice([[2, 3], [3, 3]])
+        for j in range(rng.choice([2, 2, 3])):
+            fields.append({"src": ["cm", {"p": "abc"[j], "name": rng.choice(["areacella", "areacella", "areacella_1", "m"]),
+                                          "external": rng.random() < 0.5, "shape": shape,
+                                          "off": rng.choice([0, 0, 1])}]})
+    else:   # parametric vertical coordinates with bounds, once or twice
+        fields.append({"src": ["example", 1]})
+        if rng.random() < 0.5:
+            fields.append({"src": ["example", 1], "ncvar": "ta2"})
+        if rng.random() < 0.3:
+            fields.append({"src": ["domain", 1]})
+    for i, fs in enumerate(fields):
+        fs.setdefault("props", {})["c08_id"] = f"F{i}"
+        fs.setdefault("nc_global", [])
+    return {"fields": fields, "opts": o, "fam": "refs-" + kind}
 
 
 def gen_chunks(rng, ndim_hint=3):
@@ -517,6 +681,11 @@ def check_references(f):
         if idim is not None:
             for d in v["dims"]:
                 extra_dims.setdefault(d, set()).add(idim[1])
+        cp = v["attrs"].get("compress")
+        if cp is not None and cp[0] == "s":
+            # data on a list dimension stand for data on the compressed dimensions
+            for d in v["dims"]:
+                extra_dims.setdefault(d, set()).update(cp[1].split())
 
     def allowed(name):
         out = set(vdims(name))
@@ -569,7 +738,7 @@ def check_references(f):
             for m, w in zip(toks[0::2], toks[1::2]):
                 if not m.endswith(":") or w not in vs:
                     yield "formula_terms", f"{n}:formula_terms {m} {w} does not resolve"
-        if "grid_mapping" in at:
+        if "grid_mapping" in at and at["grid_mapping"][0] == "s":
             s = at["grid_mapping"][1]
             if ":" in s:
                 cur = None
@@ -601,6 +770,99 @@ def check_references(f):
                 yield a, f"{n}:{a} names missing variable {at[a][1]}"
         if "geometry" in at and at["geometry"][1] in vs and "geometry_type" not in vs[at["geometry"][1]]["attrs"]:
             yield "geometry", f"{n}:geometry -> {at['geometry'][1]} has no geometry_type"
+        # a reference attribute is a non-empty string
+        for a in STRING_REFS:
+            if a in at and (at[a][0] != "s" or not at[a][1].strip()):
+                yield a, f"{n}:{a} is not a non-empty string: {at[a]}"
+
+    # --- the variables that give compressed data and geometries their structure
+    sample_of = {}
+    for n, v in vs.items():
+        at = v["attrs"]
+        data = v.get("data")
+        sd = at.get("sample_dimension")
+        if sd is not None and sd[0] == "s" and sd[1] in dims:
+            sample_of.setdefault(sd[1], []).append(n)
+            if len(v["dims"]) != 1:
+                yield "sample_dimension", f"count variable {n}{v['dims']} is not one-dimensional"
+            elif data is not None and sum(x or 0 for x in data) != dims[sd[1]][0]:
+                yield "sample_dimension", (f"count variable {n} sums to {sum(x or 0 for x in data)}, "
+                                           f"sample dimension {sd[1]} has size {dims[sd[1]][0]}")
+        idim = at.get("instance_dimension")
+        if idim is not None and idim[0] == "s" and idim[1] in dims:
+            if len(v["dims"]) != 1:
+                yield "instance_dimension", f"index variable {n}{v['dims']} is not one-dimensional"
+            elif data is not None and any(x is None or not 0 <= x < dims[idim[1]][0] for x in data):
+                yield "instance_dimension", f"index variable {n} has values outside instance dimension {idim[1]}"
+        cp = at.get("compress")
+        if cp is not None and cp[0] == "s":
+            cd = cp[1].split()
+            if v["dims"] != [n]:
+                yield "compress", f"list variable {n} has dimensions {v['dims']}"
+            if all(d in dims for d in cd) and data is not None:
+                size = prod(dims[d][0] for d in cd)
+                if any(x is None or not 0 <= x < size for x in data):
+                    yield "compress", f"list variable {n} has values outside the {size} points of {cd}"
+        if "geometry_type" in at:
+            nodes = [w for w in at.get("node_coordinates", ["s", ""])[1].split() if w in vs]
+            ndims = {tuple(vs[w]["dims"]) for w in nodes}
+            if not nodes:
+                yield "node_coordinates", f"geometry container {n} names no node coordinates"
+            elif len(ndims) != 1 or len(next(iter(ndims))) != 1:
+                yield "node_coordinates", f"{n}: node coordinates on dimensions {sorted(ndims)}"
+            else:
+                nnode = dims[next(iter(ndims))[0]][0]
+                gdim = None
+                for a in ("node_count", "part_node_count"):
+                    if a in at and at[a][0] == "s" and at[a][1] in vs:
+                        w = vs[at[a][1]]
+                        if len(w["dims"]) != 1:
+                            yield a, f"{n}:{a} -> {at[a][1]}{w['dims']} is not one-dimensional"
+                        elif w.get("data") is not None and sum(x or 0 for x in w["data"]) != nnode:
+                            yield a, f"{n}:{a} -> {at[a][1]} sums to {sum(x or 0 for x in w['data'])}, there are {nnode} nodes"
+                        if a == "node_count" and len(w["dims"]) == 1:
+                            gdim = w["dims"][0]
+                if "interior_ring" in at and at["interior_ring"][0] == "s" and at["interior_ring"][1] in vs:
+                    w = vs[at["interior_ring"][1]]
+                    pn = vs.get(at.get("part_node_count", ["s", ""])[1])
+                    if pn is None or w["dims"] != pn["dims"]:
+                        yield "interior_ring", f"{n}:interior_ring -> {at['interior_ring'][1]}{w['dims']} without a part node count on the same dimension"
+                    elif w.get("data") is not None and any(x not in (0, 1) for x in w["data"]):
+                        yield "interior_ring", f"{n}:interior_ring has values other than 0 and 1"
+                if "coordinates" in at and at["coordinates"][0] == "s":
+                    for w in at["coordinates"][1].split():
+                        if w in vs and gdim is not None and vdims(w) != [gdim]:
+                            yield "coordinates", f"{n}:coordinates -> {w}{vs[w]['dims']}, geometry dimension is {gdim}"
+                if "grid_mapping" in at and at["grid_mapping"][0] == "s" and at["grid_mapping"][1] in vs \
+                        and "grid_mapping_name" not in vs[at["grid_mapping"][1]]["attrs"]:
+                    yield "grid_mapping", f"{n}:grid_mapping -> {at['grid_mapping'][1]} is no grid mapping variable"
+    for d, names in sample_of.items():
+        if len(names) > 1:
+            yield "sample_dimension", f"sample dimension {d} has {len(names)} count variables: {names}"
+    # --- parametric vertical coordinates: the formula_terms of the bounds variable name the
+    # bounds of each term that has bounds, the term itself otherwise (CF 7.1)
+    for n, v in vs.items():
+        at = v["attrs"]
+        if "formula_terms" in at and "bounds" in at and at["bounds"][1] in vs:
+            b = vs[at["bounds"][1]]
+            ft = at["formula_terms"][1].split()
+            terms = dict(zip(ft[0::2], ft[1::2]))
+            bft = b["attrs"].get("formula_terms")
+            if bft is None:
+                if any("bounds" in vs[w]["attrs"] for w in terms.values() if w in vs):
+                    yield "formula_terms", f"{at['bounds'][1]} (bounds of {n}) has no formula_terms although terms have bounds"
+                continue
+            bl = bft[1].split()
+            bterms = dict(zip(bl[0::2], bl[1::2]))
+            if set(bterms) != set(terms):
+                yield "formula_terms", f"{n} has terms {sorted(terms)}, its bounds {sorted(bterms)}"
+                continue
+            for t, w in terms.items():
+                if w not in vs or bterms[t] not in vs:
+                    continue
+                wb = vs[w]["attrs"].get("bounds")
+                if bterms[t] != w and (wb is None or wb[1] != bterms[t]):
+                    yield "formula_terms", f"bounds of {n}: term {t} {bterms[t]} is neither {w} nor its bounds"
 
 
 def data_var_of(f, i):
@@ -773,10 +1035,128 @@ def oracle_file(chk, case, row, cf_version):
             pat = re.compile(re.escape(b) + r"(_[1-9][0-9]*)?")
             if not any(pat.fullmatch(x) for x in allnames | ext):
                 fail("construct-name", f"construct {c['key']} ({b!r}) has no variable {b!r} or {b!r}_k")
+    # --- geometries and compression by convention: the structure of each field as given
+    for sig, msg in check_structures(case, row):
+        fail(sig, msg)
     # --- references
     for attr, msg in check_references(f):
         fail("dangling-reference:" + attr, msg)
     return sigs
+
+
+def name_matches(base, name):
+    b = sanitize(base)
+    return name == b or re.fullmatch(re.escape(b) + r"_[1-9][0-9]*", name) is not None
+
+
+def check_structures(case, row):
+    """What each field's geometry cells / compressed data must look like in the file."""
+    f = row["file"]
+    vs, dims = f["vars"], f["dims"]
+    for i, inp in enumerate(row["inputs"]):
+        dv = data_var_of(f, i)
+        if dv is None:
+            continue
+        at = vs[dv]["attrs"]
+        geom = inp.get("geom") or []
+        if geom:
+            if "geometry" not in at or at["geometry"][0] != "s" or at["geometry"][1] not in vs:
+                yield "geometry-container", f"field {i} ({dv}) has geometry cells but no geometry container: {at.get('geometry')}"
+                continue
+            cn = at["geometry"][1]
+            c = vs[cn]["attrs"]
+            g0 = geom[0]
+            if c.get("geometry_type", ["s", None])[1] != g0["type"]:
+                yield "geometry-container", f"{cn}: geometry_type {c.get('geometry_type')}, cells are {g0['type']}"
+            counts = g0["counts"]
+            cell_totals = [sum(r) for r in counts]
+            parts = [x for r in counts for x in r if x > 0]
+            nc_ = c.get("node_count")
+            if nc_ is not None and nc_[0] == "s" and nc_[1] in vs:
+                w = vs[nc_[1]]
+                if w.get("data") != cell_totals:
+                    yield "geometry-partition", f"field {i} ({dv}): node_count {nc_[1]} = {w.get('data')}, cells have {cell_totals} nodes"
+                if w["dims"] and w["dims"][0] not in vs[dv]["dims"]:
+                    yield "geometry-partition", f"field {i} ({dv}{vs[dv]['dims']}): node_count {nc_[1]} is on {w['dims']}"
+            elif any(t != 1 for t in cell_totals):
+                yield "geometry-partition", f"field {i} ({dv}): no node_count although cells have {cell_totals} nodes"
+            pn = c.get("part_node_count")
+            if pn is not None and pn[0] == "s" and pn[1] in vs:
+                if vs[pn[1]].get("data") != parts:
+                    yield "geometry-partition", f"field {i} ({dv}): part_node_count {pn[1]} = {vs[pn[1]].get('data')}, parts have {parts} nodes"
+            elif any(len([x for x in r if x > 0]) != 1 for r in counts):
+                yield "geometry-partition", f"field {i} ({dv}): no part_node_count although cells have several parts: {counts}"
+            ir = c.get("interior_ring")
+            if g0["ring"] is not None:
+                if ir is None or ir[0] != "s" or ir[1] not in vs or vs[ir[1]].get("data") != g0["ring"]:
+                    yield "geometry-partition", f"field {i} ({dv}): interior_ring {ir} -> {vs.get(ir[1], {}).get('data') if ir and ir[0] == 's' else None}, expected {g0['ring']}"
+            elif ir is not None:
+                yield "geometry-partition", f"field {i} ({dv}): interior_ring {ir} although the cells have none"
+            # node coordinates: one per geometry coordinate
+            ncoords = c.get("node_coordinates", ["s", ""])[1].split() if c.get("node_coordinates", ["s", ""])[0] == "s" else []
+            if len(ncoords) != len(geom):
+                yield "geometry-container", f"{cn}: node_coordinates {ncoords} for {len(geom)} geometry coordinates"
+            for g in geom:
+                # (names: first field only - later fields may share variables already written, C09)
+                if i == 0 and g["node_ncvar"] and not any(name_matches(g["node_ncvar"], w) for w in ncoords):
+                    yield "geometry-container", f"{cn}: node_coordinates {ncoords} lack {g['node_ncvar']!r}"
+            # representative coordinates: exactly those that have values
+            want = [g for g in geom if g["repr"]]
+            got = c["coordinates"][1].split() if "coordinates" in c and c["coordinates"][0] == "s" else []
+            if len(got) != len(want) or ("coordinates" in c and not got):
+                yield "geometry-container", f"{cn}: coordinates {c.get('coordinates')} for {len(want)} coordinates with representative values"
+            for g in want:
+                if i == 0 and g["ncvar"] and not any(name_matches(g["ncvar"], w) for w in got):
+                    yield "geometry-container", f"{cn}: coordinates {got} lack {g['ncvar']!r}"
+            # grid mapping: named iff a grid mapping applies to a geometry coordinate
+            keys = {g["key"] for g in geom}
+            has_gm = any(keys & set(gm["coords"]) for gm in inp.get("grid_mappings", []))
+            if has_gm != ("grid_mapping" in c):
+                yield "geometry-container", f"{cn}: grid_mapping {c.get('grid_mapping')} although the field has {'a' if has_gm else 'no'} grid mapping for its geometry"
+        elif "geometry" in at:
+            yield "geometry-container", f"field {i} ({dv}) has no geometry cells but names {at['geometry']}"
+        cmpd = inp.get("cmp")
+        if cmpd:
+            vd = vs[dv]["dims"]
+            t = cmpd["type"]
+            if t == "gathered":
+                lists = [d for d in vd if d in vs and "compress" in vs[d]["attrs"]]
+                if len(lists) != 1:
+                    yield "compression-structure", f"gathered field {i} ({dv}{vd}) has {len(lists)} list dimensions"
+                else:
+                    lv = vs[lists[0]]
+                    if lv.get("data") != cmpd.get("list"):
+                        yield "compression-structure", f"field {i} ({dv}): list variable {lists[0]} = {lv.get('data')}, expected {cmpd.get('list')}"
+                    cd = lv["attrs"]["compress"][1].split() if lv["attrs"]["compress"][0] == "s" else []
+                    sizes = [dims[d][0] for d in cd if d in dims]
+                    want_sizes = [inp["shape"][a] for a in cmpd["compressed_axes"]]
+                    if sizes != want_sizes:
+                        yield "compression-structure", f"field {i} ({dv}): compress = {cd} of sizes {sizes}, compressed axes have sizes {want_sizes}"
+            count_vars = {}
+            for n, v in vs.items():
+                x = v["attrs"].get("sample_dimension")
+                if x is not None and x[0] == "s":
+                    count_vars.setdefault(x[1], []).append(n)
+            inner = None      # the dimension that the index variable (if any) spans
+            if t in ("ragged contiguous", "ragged indexed contiguous"):
+                sds = [d for d in vd if d in count_vars]
+                cvs = [n for d in sds for n in count_vars[d]]
+                if len(cvs) != 1:
+                    yield "compression-structure", f"field {i} ({dv}{vd}): count variables {cvs} for its sample dimension"
+                else:
+                    if vs[cvs[0]].get("data") != cmpd.get("count"):
+                        yield "compression-structure", f"field {i} ({dv}): count variable {cvs[0]} = {vs[cvs[0]].get('data')}, expected {cmpd.get('count')}"
+                    inner = vs[cvs[0]]["dims"][0] if vs[cvs[0]]["dims"] else None
+            if t in ("ragged indexed", "ragged indexed contiguous"):
+                if t == "ragged indexed":
+                    ivs = [n for n, v in vs.items() if "instance_dimension" in v["attrs"]
+                           and len(v["dims"]) == 1 and v["dims"][0] in vd]
+                else:
+                    ivs = [n for n, v in vs.items() if "instance_dimension" in v["attrs"] and v["dims"] == [inner]]
+                if len(ivs) != 1:
+                    yield "compression-structure", f"field {i} ({dv}{vd}): index variables {ivs}"
+                elif vs[ivs[0]].get("data") != cmpd.get("index"):
+                    yield "compression-structure", f"field {i} ({dv}): index variable {ivs[0]} = {vs[ivs[0]].get('data')}, expected {cmpd.get('index')}"
 
 
 def norm_req(ch, inp):
@@ -860,6 +1240,47 @@ def lits_vars(case, row):
     return out
 
 
+def lit_refs(case, row):
+    """The auxiliary coordinates of a single geometry field and the reference attributes that the
+    file holds for them (C08.Run.check_refs); None when the case is not of that kind."""
+    if len(row["inputs"]) != 1 or not row["file"]:
+        return None
+    inp = row["inputs"][0]
+    if not inp.get("geom"):
+        return None
+    f = row["file"]
+    dv = data_var_of(f, 0)
+    if dv is None:
+        return None
+    geom = {g["key"]: g for g in inp["geom"]}
+    auxs = []
+    for a in inp["aux"]:
+        g = geom.get(a["key"])
+        nodes = sanitize(g["node_ncvar"]) if g is not None and g["node_ncvar"] else None
+        if g is not None and nodes is None:
+            return None       # the node variable's name is not known in advance
+        gms = [sanitize(m["ncvar"]) for m in inp["grid_mappings"] if a["key"] in m["coords"] and m["ncvar"]]
+        name = sanitize(a["ncvar"] or "auxiliary")
+        auxs.append(f"(mkA {gstr(name)} {gbool(a['props'])} {gbool(a['has_data'])} "
+                    f"{gopt(nodes, gstr)} {glist(gms, gstr)})")
+    at = f["vars"][dv]["attrs"]
+
+    def names_attr(x):
+        if x is None:
+            return None
+        return x[1].split() if x[0] == "s" else []
+    oc = names_attr(at.get("coordinates"))
+    if oc is not None:
+        oc = [w for w in oc if w not in f["dims"]] or None     # (coordinates=True adds coordinate variables)
+    cont = "None"
+    if "geometry" in at and at["geometry"][0] == "s" and at["geometry"][1] in f["vars"]:
+        c = f["vars"][at["geometry"][1]]["attrs"]
+        lst = lambda x: gopt(x, lambda l: glist(l, gstr))
+        cont = (f"(Some ({glist(names_attr(c.get('node_coordinates')) or [], gstr)}, "
+                f"{lst(names_attr(c.get('coordinates')))}, {lst(names_attr(c.get('grid_mapping')))}))")
+    return f"({glist(auxs, lambda x: x)}, ({gopt(oc, lambda l: glist(l, gstr))}, {cont}))"
+
+
 # ---------------------------------------------------------------------------
 # the check
 # ---------------------------------------------------------------------------
@@ -912,7 +1333,12 @@ def run(chk, model_ok):
             nrows[w + j * nw] = r
     ndone = [(h, r) for h, r in zip(histories, nrows) if r is not None]
     name_bad_prop = set()
-    for k, (h, r) in enumerate(ndone):
+    for k, (h0, r) in enumerate(ndone):
+        dry, h = split_hist(h0)
+        if dry:
+            # (the dry run of append mode re-issues the names of the dataset: only the
+            # correspondence applies)
+            continue
         names = r["names"]
         failed = bool(names) and names[-1].startswith("!")
         ok_names = names[:-1] if failed else names
@@ -921,7 +1347,8 @@ def run(chk, model_ok):
         dims = {}
         roles = {}
         for op, n in zip(h, ok_names):
-            reuse = op[0] == "role" and n in roles.get(op[3], []) and dims.get(n) == op[2]
+            reuse = (op[0] == "role" and n in roles.get(op[3], []) and dims.get(n) == op[2]
+                     and (not (len(op) > 4 and op[4]) or n == op[1]))
             problem = None
             if " " in n:
                 problem = f"name {n!r} contains a blank"
@@ -958,6 +1385,9 @@ def run(chk, model_ok):
         cases.append(gen_file_case(rng, fams[k % len(fams)]))
     for k in range(40 if chk.tier == "quick" else 200):
         cases.append(gen_shared_bounds_case(rng))
+    kinds = ["geometry"] * 4 + ["compressed"] * 3 + ["external"] * 2 + ["vertical"]
+    for k in range(120 if chk.tier == "quick" else 700):
+        cases.append(gen_reference_case(rng, kinds[k % len(kinds)]))
     rows = run_files(chk, cases)
     cf_version = table_version()
 
@@ -1007,11 +1437,12 @@ def run(chk, model_ok):
     ncorr = 0
     if model_ok:
         lits = []
-        for h, r in ndone:
+        for h0, r in ndone:
+            dry, h = split_hist(h0)
             names = r["names"]
             failed = bool(names) and names[-1].startswith("!")
             ok_names = names[:-1] if failed else names
-            lits.append(f"({glist(h, g_op)}, {glist(ok_names, gstr)}, {gbool(failed)}, "
+            lits.append(f"({gbool(dry)}, {glist(h, g_op)}, {glist(ok_names, gstr)}, {gbool(failed)}, "
                         f"{glist(r['vars'], gstr)}, {glist(r['dims'], lambda d: gpair(gstr(d[0]), gz(d[1])))})")
         bad = lib.coq_bad_indices("C08", REQ, "check_names", lits, chunk=400)
         ncorr += len(lits)
@@ -1051,6 +1482,25 @@ def run(chk, model_ok):
                      "global attributes / Conventions: model and file disagree",
                      {"correspondence": "C08.Run.check_globals", "input": gl_case[i],
                       "observed": rows[gl_case[i]["id"]]["file"]["gattrs"] if rows[gl_case[i]["id"]]["file"] else rows[gl_case[i]["id"]]["exc"]})
+        # reference attributes of single geometry fields
+        rl, rl_case = [], []
+        for c in cases:
+            row = rows.get(c["id"])
+            if row is None or row["inputs"] is None or row["exc"]:
+                continue
+            lit = lit_refs(c, row)
+            if lit is not None:
+                rl.append(lit)
+                rl_case.append(c)
+        bad = lib.coq_bad_indices("C08", REQ, "check_refs", rl, chunk=200)
+        ncorr += len(rl)
+        for i in bad[:40]:
+            if rl_case[i]["id"] in explained:
+                continue
+            chk.fail("correspondence", "model-vs-impl",
+                     "reference attributes of a geometry field: model and file disagree",
+                     {"correspondence": "C08.Run.check_refs", "input": rl_case[i], "literal": rl[i]})
+        nrefs = len(rl)
         bad = lib.coq_bad_indices("C08", REQ, "check_var", vl, chunk=300)
         ncorr += len(vl)
         for i in bad[:40]:
@@ -1064,6 +1514,7 @@ def run(chk, model_ok):
         nvars = len(vl)
     else:
         nvars = 0
+        nrefs = 0
 
     # ---------------- coverage
     fam = {}
@@ -1098,7 +1549,7 @@ def run(chk, model_ok):
                         ("domain", any(fs["src"][0] == "domain" for fs in c["fields"]))):
             if cond:
                 feats[k] = feats.get(k, 0) + 1
-    nontrivial_names = {lib.canon(h) for h, r in ndone if len(h) > 1}
+    nontrivial_names = {lib.canon(h) for h, r in ndone if len(split_hist(h)[1]) > 1}
     chk.coverage.update({
         "evaluations": len(ndone) + len(cases) + nvars,
         "distinct_nontrivial": len(distinct) + len(nontrivial_names),
@@ -1115,6 +1566,7 @@ def run(chk, model_ok):
         "features_in_written_files": feats,
         "write_exception_classes": excs,
         "variables_checked_for_type_and_chunks": nvars,
+        "geometry_fields_checked_against_reference_model": nrefs,
         "exhaustive": False,
         "historical_refutations": "C08/Refuted.v: the allocator and the Conventions assembly as they were before the proposed fix: diffs",
     })
